@@ -304,6 +304,7 @@ def run(R):
                 seen_cl.add(ck)
                 used_closures.append(cf)
     for ch in used_closures:
+        ch = PR.desugared(P, ch)       # `let cell = |i| &row.columns[i];` called from the format closures: spliced in
         for c in ch.calls:
             if short(c.name).endswith("Index<I>>::index") and (c.func.get("res_targs") or [""])[0] == "sqlgrep::model::Value":
                 n_pair += 1
@@ -334,7 +335,12 @@ def run(R):
     except Exception as e:  # pragma: no cover
         R.note("could not read Cargo.toml: %s" % e)
     js = [c for c in f.calls if short(c.name) == "serde_json::ser::to_string"]
-    if len(js) == 1 and any("serde_json::map::Map" in short(c.name) and "from_iter" in short(c.name) for c in f.calls):
+    def _is_map_build(c):
+        sn = short(c.name)
+        if "serde_json::map::Map" in sn and "from_iter" in sn:
+            return True
+        return sn.endswith("Iterator::collect") and any("serde_json::map::Map" in t for t in (c.func.get("res_targs") or c.targs or []))
+    if len(js) == 1 and any(_is_map_build(c) for c in f.calls):
         R.ok("C17.json", "print|serde", "record = serde_json::to_string(Map::from_iter(..))", js[0].loc())
     else:
         R.violation("C17.json", "print|serde", "JSON records are not produced by serde_json::to_string on a Map", [f.loc()])
